@@ -33,6 +33,15 @@ _ESCAPED_CHARACTER_REGEX = re.compile(
 )
 
 
+# escaped unicode and escaped characters are decoded in ONE left-to-right pass: the
+# backslash of an escaped backslash never starts another escape sequence
+_ESCAPED_SEQUENCE_REGEX = re.compile(
+    "|".join(
+        (_ESCAPED_UNICODE_REGEX.pattern, _ESCAPED_CHARACTER_REGEX.pattern)
+    )
+)
+
+
 def _find_token(
     node: Union["Token", "Tree", list], searched_token_type: str
 ) -> Optional["Token"]:
@@ -85,6 +94,19 @@ def _replace_escaped_character(match: "Match") -> str:
         match.group(0)
     )
     return replacement if replacement is not None else ""
+
+
+def _replace_escaped_sequence(match: "Match") -> str:
+    """
+    Replaces an escaped unicode or an escaped character to its string value.
+    :param match: matched escaped sequence
+    :type match: Match
+    :return: string value
+    :rtype: str
+    """
+    if match.group(0) in _STRING_VALUE_ESCAPED_CHARACTER_REPLACEMENTS:
+        return _replace_escaped_character(match)
+    return _replace_escaped_unicode(match)
 
 
 def _override_tree_children(tree: "Tree", new_child: Any) -> "Tree":
@@ -167,9 +189,8 @@ class TokenTransformer(Transformer_InPlace):
         slicing = 3 if is_block_string else 1
         value = token.value[slicing:-slicing]
         if not is_block_string:
-            value = _ESCAPED_UNICODE_REGEX.sub(_replace_escaped_unicode, value)
-            value = _ESCAPED_CHARACTER_REGEX.sub(
-                _replace_escaped_character, value
+            value = _ESCAPED_SEQUENCE_REGEX.sub(
+                _replace_escaped_sequence, value
             )
         return _override_tree_children(
             tree,
